@@ -37,12 +37,25 @@ def classify_span(sp, coll_pred):
     """('child', ok_start, ok_end) when the span is built from elements of the collection (first/last in any spelling),
     ('empty', (start kind, end kind)) otherwise"""
     st, en = sp["start"], sp["end"]
-    def of_elem(x, which, finder):
-        return isinstance(x, tuple) and x[0] == "field" and x[2] == which and finder(x[1], coll_pred) is not None \
-            and (has_field(x[1], "span") or has_call(x[1], "::span"))
+    def span_owner(s):
+        """the element whose span `s` is: `E.span` (LR stack item) or `Context::span(&E.possibilities[0])` (GLR parent link)"""
+        if isinstance(s, tuple) and s[0] == "field" and s[2] == "span":
+            return s[1]
+        if is_call(s, "::span") and s[2]:
+            inner = idiom.first_of(s[2][0])          # every possibility of a link covers the same span: the first one
+            if isinstance(inner, tuple) and inner[0] == "field" and inner[2] == "possibilities":
+                return inner[1]
+        return None
+    def of_elem(x, which, pick):
+        # strictly: x is <which> of the span of THE first / last element (not of something chosen among the elements)
+        if not (isinstance(x, tuple) and x[0] == "field" and x[2] == which):
+            return False
+        e = span_owner(x[1])
+        c = pick(e) if e is not None else None
+        return c is not None and coll_pred(c)
     touches = any(idiom.find_first_of(x, coll_pred) is not None or idiom.find_last_of(x, coll_pred) is not None for x in (st, en))
     if touches:
-        return ("child", of_elem(st, "start", idiom.find_first_of), of_elem(en, "end", idiom.find_last_of))
+        return ("child", of_elem(st, "start", idiom.first_of), of_elem(en, "end", idiom.last_of))
     return ("empty", (_anchor_kind(st), _anchor_kind(en)))
 
 
